@@ -75,7 +75,15 @@ functions:
     command: "echo $xa $yb"
 handlerOn:
   exit:
-    command: echo exit
+    command: GET http://localhost/exit
+    executor:
+      type: http
+      config:
+        timeout: 5
+        headers:
+          X: y
+        query:
+          - k: v
   success:
     command: echo ok
   failure:
@@ -537,6 +545,11 @@ func CanarySweep(dir string, emit func(Ev)) (int, error) {
 				os.WriteFile(file, b, 0o644)
 				os.Remove(canary)
 				os.Setenv("VERIF_CANARY_REF", "ref")
+				// what an executing load of another definition (start, restart, a sub-workflow's parent) has left in
+				// this process: positional parameters beyond those of the definition that is looked at
+				for i := 1; i <= 6; i++ {
+					os.Setenv(fmt.Sprint(i), fmt.Sprintf("left-by-an-earlier-load-%d", i))
+				}
 				before := envSnap()
 				site := guarded(func() { e.f(b, file) })
 				after := envSnap()
